@@ -48,6 +48,17 @@ def generate(rng, tier):
         elif r < 0.4 and c["spec"]["images"]:
             n = rng.choice(sorted(c["spec"]["images"]))
             c["ops"] = [["img", n, 9], ["imgget", n]] + c["ops"]
+        elif r < 0.75:
+            # the first thing that happens to a glyph is a structure edit (nothing of it has been looked at), then a save
+            cands = [(l["name"], gn) for l in c["spec"]["layers"] for gn in sorted(l["glyphs"])]
+            if cands:
+                ln, gn = rng.choice(cands)
+                x = rng.randint(0, 200)
+                pts = [[x, 0, "line", False, None, None], [x + 30, 0, "line", False, None, None], [x + 10, 40, "line", False, None, None]]
+                edit = rng.choice([["gfield", ln, gn, "inscontour", [rng.choice(["first", "last"]), {"id": None, "points": pts}]],
+                                   ["gfield", ln, gn, "addanchor", [5, 6, "top", None, None]],
+                                   ["gfield", ln, gn, "clearcomps", None], ["gfield", ln, gn, "move", [3, 4]]])
+                c["ops"] = [edit, ["save", rng.choice(MODES), c["structure"]]] + c["ops"]
         yield c
 
 
